@@ -1083,7 +1083,13 @@ def judgeC18 (o : Obs) : Verdict :=
   let lostFailure := if o.crash == [] then [] else procs.flatMap (fun pr =>
     match (ofLabel o (5000 + pr.proc)).find? (·.1.tag == "pyend") with
     | some e =>
-      if arg e.1 0 == 1 && e.1.args.drop 1 == o.crash then
+      -- (only if E belongs to this process alone: the exception object with which an event was failed travels - through
+      -- conditions, through processes that do not catch it - and the run may end because *another* event that carries it was
+      -- never defused)
+      let shared := infos.any (fun inf => inf.idx != pr.idx && (match out inf.idx with
+        | some (_, c) => c.drop 1 == o.crash
+        | none => false))
+      if arg e.1 0 == 1 && e.1.args.drop 1 == o.crash && !shared then
         procs.flatMap (fun q =>
           let mine := ofLabel o (5000 + q.proc)
           let interrupted := o.events.any (fun c => c.tag == "pyintr" && arg c 0 == q.proc)
